@@ -1,9 +1,9 @@
 SPECIFICATION Spec
 CONSTANTS
   MaxLen = 3
-  MaxVariants = 2
+  MaxVariants = 3
   EmitCases = TRUE
-  Alphabet = {"F", "f", "O", "o", "B", "a", "A", "n", "#", "r"}
+  Alphabet = {"F", "f", "O", "o", "n", "B", "a"}
 INVARIANTS
   P_C13_Exact
   P_C13_OwnName
